@@ -56,7 +56,7 @@ fn generic_step<E: Elem + Clone>(out: &mut Out, w: &mut World<E>, rng: &mut Rng)
             if rng.below(6) == 0 { w.reshape(out, r, a + 1, b + 1) } else { w.reshape(out, r, a, b) }
         }
         7 | 8 => {
-            if rng.below(8) == 0 { w.resize(out, r, usize::MAX, 2) } else { w.resize(out, r, rng.below(6), rng.below(6)) }
+            if rng.below(5) == 0 { w.resize(out, r, usize::MAX, 2) } else { w.resize(out, r, rng.below(6), rng.below(6)) }
         }
         9 => w.swap_vecs(out, r, "swap_rows", rng.below(nr + 2), rng.below(nr + 2)),
         10 => w.swap_vecs(out, r, "swap_cols", rng.below(nc + 2), rng.below(nc + 2)),
@@ -100,6 +100,12 @@ fn tok_step(out: &mut Out, w: &mut World<Tok>, rng: &mut Rng, with_mul: bool) {
     if rng.coin() {
         w.drop_reg(out, b);
         w.new_matrix(out, b, *rng.pick(&ORDERS), nr, nc, 500);
+    }
+    if rng.below(5) == 0 {
+        // an element write through `get_mut` (History operation `setAt`): in range and one past the extents
+        let (i, j) = (rng.below(nr + 2), rng.below(nc + 2));
+        w.poke(out, a, i, j, &format!("p{}", rng.below(1000)));
+        return;
     }
     let pick = if with_mul { rng.below(19) } else { let x = rng.below(11); if x == 10 { 17 } else { x } };
     match pick {
@@ -279,7 +285,7 @@ pub fn run_c01(out: &mut Out, rng: &mut Rng, tier: Tier) -> String {
         out.nontrivial();
     }
     format!(
-        "{n} random histories (4..{} operations over 4 registers) on destructor tokens with the ledger delta (tokens created / dropped) of every operation observed: construction, drop, transpose, the four order operations, reshape (valid / invalid), resize (grow / shrink / overflowing), swap_rows / swap_cols / swap (plain and wrapping, valid / invalid), overwrite, clear, shrink_to(_fit), apply, map, map_ref, clone, \
+        "{n} random histories (4..{} operations over 4 registers) on destructor tokens with the ledger delta (tokens created / dropped) of every operation observed: construction, drop, transpose, the four order operations, reshape (valid / invalid), resize (grow / shrink / overflowing), swap_rows / swap_cols / swap (plain and wrapping, valid / invalid), overwrite, clear, shrink_to(_fit), element writes through get_mut (valid / invalid), apply, map, map_ref, clone, \
          generic and named elementwise operations in the three ownership variants (conformable / not), element iterators incl. consuming ones, contains, ==, row/column views of all families, iter_nth_*; {} more token histories adding the products (multiply, multiplication_like_operation, * operators) and generic scalar operations; {} histories each on 4-byte Copy elements, the unit type and a zero-sized type with drop glue. \
          Shapes 0..=5 x 0..=5 including r x 0, 0 x c, 0 x 0. Oracle after every operation: nrows*ncols == size, every coordinate through get() against the independent row-of-rows reference, order tag; at the end of every history: addresses of all coordinates pairwise distinct and in range, every matrix dropped, every token ever created dropped exactly once (live = 0, no double drop). All cases non-trivial",
         4 + len, n / 2, n / 3
